@@ -139,6 +139,9 @@ pub fn gen_spec(ch: &mut Ch) -> WorldSpec {
         resources,
         clients,
         max_events: if thorough() { 80_000 } else { 30_000 },
+        // in a quarter of the runs the application takes simulated time and
+        // exchanges on other keys are processed in between (split-phase)
+        slow_app_pm: if ch.chance(1, 4, "slow-app") { 100 + ch.below(700, "slow-app.pm") } else { 0 },
     }
 }
 
